@@ -3,7 +3,13 @@ static inline void tmcg_mpz_fpowm_init(mpz_t *t) { (void)t; }
 static inline PedersenCommitmentScheme *PedersenCommitmentScheme__new_4(size_t n, ios_t *in, unsigned long f, unsigned long s)
 { (void)n; (void)f; (void)s; if (nondet_bool()) { in->fail = 1; __tmcg_thrown = TMCG_EXC_runtime_error; return 0; }
   return (PedersenCommitmentScheme *)__verif_new(sizeof(PedersenCommitmentScheme)); }
-static inline void PedersenCommitmentScheme__PublishGroup(PedersenCommitmentScheme *c, ios_t *out) { (void)c; out->acc = (long)nondet_ulong(); }
+/* com->PublishGroup(out): under contract in C11_params; here a monitor of the call (which object, after how many integers)
+ * that appends an arbitrary number of integers */
+size_t g_pub_calls, g_pub_obj, g_pub_nput;
+static inline void PedersenCommitmentScheme__PublishGroup(PedersenCommitmentScheme *c, ios_t *out)
+{ g_pub_calls = g_pub_calls + 1; g_pub_obj = __CPROVER_POINTER_OBJECT(c); g_pub_nput = out->nput; out->acc = (long)nondet_ulong();
+  size_t more; __CPROVER_assume(out->nput + more >= out->nput); if (ghost_ok >= out->nput) out->okv = (long)nondet_ulong(); out->nput = out->nput + more; }
+#define ENTRY_TOK(k) ((__CPROVER_old(in->pos) + (k)) < IOS_MAXTOK ? (__CPROVER_old(in->pos) + (k)) : 0)
 /* new GrothSKC(n, in, ell_e, fieldsize, subgroupsize) = allocation + the (extracted) stream constructor */
 static inline GrothSKC *GrothSKC__new_5(size_t n, ios_t *in, unsigned long ell_e, unsigned long f, unsigned long s)
 { GrothSKC *o = (GrothSKC *)__verif_new(sizeof(GrothSKC)); GrothSKC__ctor_stream(o, n, in, ell_e, f, s); if (__tmcg_thrown) return 0; return o; }
